@@ -857,7 +857,10 @@ def check_case(ctx, case, use_driver=True, gate=True, label="clean"):
     """Run one case.  Returns a dict describing what was seen:
        status: declined | beyond | ok | wrong;  wrong carries (lid, idx, want, got, model_fs)."""
     sr = case["sr"]
-    tol = TOL if sr == "logaddexp-add" else 0.0
+    # exact in (add, mul) — except below a product-reduce, where numpy's safediv multiplies by the
+    # rounded reciprocal (x * (1/3) can be one ulp off an exactly representable quotient)
+    has_plate = any(t[0] == "prod" for t in subterms(case["expr"]))
+    tol = TOL if (sr == "logaddexp-add" or has_plate) else 0.0
     ctx.count(f"{label}:sr:{sr}")
     ctx.count(f"{label}:opt:{case.get('opt')}")
     r = run_impl(case)
@@ -1185,7 +1188,7 @@ def correspond(ctx):
     m = 40 if ctx.tier == "quick" else 300
     for stream in FINDINGS:
         dedicated(ctx, stream, m)
-    ctx.assumptions.append("float64 arithmetic on small integers / dyadic rationals is exact; the log semiring is compared in linear space with rtol 1e-9")
+    ctx.assumptions.append("float64 arithmetic on small integers / dyadic rationals is exact; the log semiring, and (add,mul) terms containing a product-reduce (safediv = multiplication by a rounded reciprocal), are compared in linear space with rtol 1e-9; magnitudes beyond 2**50 with rtol 1e-12")
     ctx.assumptions.append("with apply_optimizer the leaves are the tensors of the optimizer's output (its unfold pass evaluates Subs(Tensor) eagerly, outside the tape); the output is re-read into the model's syntax modulo __BOUND suffixes exactly as AdjointTape.adjoint un-mangles names")
     ctx.assumptions.append("adjoint_sound_partial covers every node kind except Cat (tied by correspondence only: the driver's run-time echo `marginal = deriv` also runs on the Cat cases); the proved sweep is tree-shaped — the tape's DAG sharing and its keying of adjoint_values by un-mangled eager values are exercised by correspondence only (dedicated streams tape-key-collision, binder-free-clash, opt-rebinding)")
     ctx.assumptions.append("clean-stream side conditions beyond Lean's `Good` (implementation-specific, each with its dedicated stream or owner): no diagonal substitutions (Tensor.eager_subs, C04), Cat with part_name == name, with the optimizer every variable bound once")
